@@ -1,20 +1,25 @@
 """
 C20 - curvature information matches the cost it is meant to describe.
 
-Proof (lean/Pygom/Props/C20.lean): jtj entry formula, symmetry, positive semi-definiteness; what the coded
-forward-forward right-hand side and the Hessian assembly compute; they are the true second-order equation / the
-derivative of gradient only under stated hypotheses (counterexamples otherwise).
+Proof (lean/Pygom/Props/C20.lean): jtj entry formula, symmetry, positive semi-definiteness; the coded forward-forward
+right-hand side IS the second-order sensitivity equation, entry by entry, for every nS, nP (`ff_rhs_is_true`; the code with
+the `grad_jacobian` / `grad_grad` terms); the Hessian assembly turns second-order sensitivities into the derivative of
+gradient (`hessian_is_second_derivative_partial`; the variational-equation theorem is the stated assumption).
 
 Tie (this file): real `SquareLoss` objects on catalogue models (SIR, SEIR, SIR_norm) and random bounded models.
  * `jtj(theta)` against the DIRECT ORACLE  sum_i sum_q (w s)(w s)^T  built from finite-difference sensitivities of
    reference solutions (DOP853 1e-12), symmetry, eigenvalues; and against the Lean `sensToJtj` on the very sensitivity
    array the code integrated.
- * `hessian(theta)` against central differences of the reference gradient.  Where it differs, the value is compared
-   with what the Lean model of the code predicts (the coded, incomplete forward-forward system integrated independently
-   at tight tolerance, pushed through the Lean `hessian` assembly): a match on a model WITH mixed state-parameter second
-   derivatives is the recorded finding `hessian:missing-mixed-state-parameter-terms`; anything else is its own signature.
- * `ode_and_forwardforward(z,t)` pointwise against the Lean `odeAndForwardForward` (exact) and an explicit-loop numpy
-   version (which is what gets integrated for the prediction).
+ * `hessian(theta)` against central differences of the reference gradient (DIRECT ORACLE; calls neither grad_jacobian nor
+   grad_grad).  ANY difference is a violation.  For its diagnostic value the wrong value is compared with what known
+   defective variants predict (the as-found forward-forward system without the mixed terms, integrated independently; the
+   as-found sign of the second-order term): signatures `hessian:missing-mixed-terms`, `hessian:second-order-term-sign`,
+   `hessian:sens-index-order`, else `hessian:other`.
+ * `ode_and_forwardforward(z,t)` pointwise against the Lean `odeAndForwardForward` fed with the evaluators' J, G, DJ, GJ, GG
+   (exact), against an explicit-loop numpy version of the coded system, and against an INDEPENDENT second-order right-hand
+   side whose d2f/dx2, d2f/dx dtheta, d2f/dtheta2 are derived here by sympy differentiation of `get_ode_eqn()` (no call of
+   `get_grad_jacobian_eqn` / `get_grad_grad_eqn` / the compiled evaluators): a difference is a violation
+   `forwardforward:rhs-not-second-order-equation`.
 """
 import json
 import random
@@ -29,23 +34,32 @@ from .senscommon import close_arr, fmat, fvec, layout, ref_solve, richardson_dir
 PROP = "C20"
 LEAN = {"module": "Pygom.Props.C20",
         "required": ["Pygom.C20.jtj_entry", "Pygom.C20.jtj_symm", "Pygom.C20.jtj_posSemidef", "Pygom.C20.ff_rhs_entry",
-                     "Pygom.C20.ff_rhs_partial", "Pygom.C20.ff_rhs_counterexample", "Pygom.C20.ffTrue_is_total_derivative_of_sens_rhs",
+                     "Pygom.C20.ff_rhs_is_true", "Pygom.C20.gjs_entry", "Pygom.C20.odeAndForwardForward_ff_block",
+                     "Pygom.C20.ffTrue_is_total_derivative_of_sens_rhs", "Pygom.C20.ff_rhs_terms_independent",
+                     "Pygom.C20.ff_asFound_entry", "Pygom.C20.ff_rhs_asFound_partial", "Pygom.C20.ff_rhs_asFound_counterexample",
                      "Pygom.C20.hessianH_entry", "Pygom.C20.hessian_is_second_derivative_partial",
-                     "Pygom.C20.hessian_repaired_is_derivative_of_gradient", "Pygom.C20.hessian_sign_counterexample"]}
-BUDGET = {"quick": {"catalogue": 12, "additive": 14, "general": 14, "one_state": 2},
-          "thorough": {"catalogue": 120, "additive": 220, "general": 220, "one_state": 12}}
+                     "Pygom.C20.hessian_asFound_sign_counterexample"]}
+BUDGET = {"quick": {"catalogue": 12, "additive": 8, "general": 12, "products": 10, "one_state": 2},
+          "thorough": {"catalogue": 120, "additive": 120, "general": 200, "products": 120, "one_state": 12}}
 RULE = ("SquareLoss on SIR / SEIR / SIR_norm and on random bounded models (2-4 states, 1-3 free parameters; 'additive' models have "
-        "no mixed state-parameter second derivatives: free parameters enter as constant birth rates, 'general' ones have them), "
+        "no second derivative involving a parameter: free parameters enter as constant birth rates; 'general' ones multiply parameters "
+        "by states, by each other through symbolic magnitudes, and divide by 1+b*Y; 'products' ones always contain a rate a*b*X "
+        "(parameter x parameter x state), a squared parameter a*a*X or a*a (d2f/dtheta2 != 0) and a mass-action rate a*X*Y, so that "
+        "each of the three parameter terms of the second-order equation - tags term:state-param, term:param-param, term:param-squared - "
+        "is non-zero for the target parameters), "
         "5-9 observation times, 1-2 observed states in any order, weights none/scalar/per-state/full, target_param subsets in any "
         "order; a case is non-trivial when jtj has rank >= 1 and the second-order part of the true Hessian exceeds 1% of its scale")
 ASSUMPTIONS = ["integrating the sensitivity systems yields the derivatives of the solution (as in C13); scipy integrators within tolerance",
                "the finite-difference Hessian of the reference cost is accurate to ~1e-6 relative (Richardson on 1e-12 solutions); "
                "comparisons use 1e-3 relative",
-               "hessian_* theorems take the second-order sensitivities as given; the coded forward-forward equation omits the mixed "
-               "terms (ff_rhs_counterexample) - recorded finding"]
+               "hessian_is_second_derivative_partial takes as hypotheses that the integrated first-order / forward-forward blocks are the "
+               "first- / second-order sensitivities of the observed states (variational-equation theorem, not in Mathlib); what is "
+               "proved is that the integrated system is the second-order variational equation (ff_rhs_is_true) and the assembly",
+               "the pointwise right-hand-side oracle trusts sympy.diff / lambdify applied to get_ode_eqn() (C01 ties get_ode_eqn, C03 sympy.diff)"]
 TRUSTED = ["harness generator", "Lean driver JSON codec and list<->function glue", "numpy/scipy float arithmetic within the stated tolerances"]
 
-SIG_MIXED = "hessian:missing-mixed-state-parameter-terms"
+SIG_MIXED = "hessian:missing-mixed-terms"        # a VIOLATION like any other (the finding was repaired)
+SIG_RHS = "forwardforward:rhs-not-second-order-equation"
 
 
 # ---------------------------------------------------------------------------------------------------------
@@ -67,6 +81,41 @@ def _additive_model(r):
         _, (where, payload) = gen.route_process(r, p, ("event",))
         spec["ctor"][where].append(payload)
     spec = subst_params(spec, {q: Fraction(r.randint(5, 40), 100) for q in fixed})
+    return spec, states, free
+
+
+def _product_model(r):
+    """always: a mass-action rate a*X*Y, a product rate a*b*X (parameter x parameter x state) and a squared parameter
+    (a*a*X or a constant birth a*a); all coefficients are FREE parameters"""
+    nS = r.randint(2, 3)
+    states = r.sample(gen.STATE_POOL, nS)
+    nP = r.randint(2, 3)
+    free = r.sample(gen.PARAM_POOL, nP)
+    V = E.var
+    def tr(tt, o=None, d=None, m=1):
+        return {"type": tt, "origin": o, "dest": d, "mag": E.num(m)}
+    procs = []
+    o, d = r.sample(states, 2)
+    a = r.choice(free)
+    procs.append({"rate": E.mul(E.mul(V(a), V(o)), V(d)), "kind": "mass", "transitions": [tr("T", o, d)]})
+    a, b = r.sample(free, 2)
+    o, d = r.sample(states, 2)
+    procs.append({"rate": E.mul(E.mul(V(a), V(b)), V(o)), "kind": "param-product",
+                  "transitions": [tr("T", o, d) if r.random() < 0.6 else tr("D", o)]})
+    a = r.choice(free)
+    if r.random() < 0.5:
+        o = r.choice(states)
+        procs.append({"rate": E.mul(E.mul(V(a), V(a)), V(o)), "kind": "param-squared", "transitions": [tr("D", o, None, r.randint(1, 2))]})
+    else:
+        procs.append({"rate": E.mul(V(a), V(a)), "kind": "param-squared-const", "transitions": [tr("B", None, r.choice(states))]})
+    if r.random() < 0.5:
+        procs += gen.gen_processes(r, states, free, 1, [("linear", 3), ("saturating", 2)], max_trans=1, sym_mag=True, max_mag=2)
+    r.shuffle(procs)
+    spec = {"state": {"list": states}, "param": {"list": free}, "derived": [],
+            "ctor": {"event": [], "transition": [], "birth_death": [], "ode": []}, "then": []}
+    for p in procs:
+        _, (where, payload) = gen.route_process(r, p, ("event",))
+        spec["ctor"][where].append(payload)
     return spec, states, free
 
 
@@ -125,8 +174,8 @@ def make_cases(rng, tier, budget):
                 tgt = sorted(tgt, key=params.index)
             c["target"] = tgt
         cases.append(c)
-    for kind, fn in (("additive", _additive_model), ("general", _general_model)):
-        for i in range(budget[kind]):
+    for kind, fn in (("additive", _additive_model), ("general", _general_model), ("products", _product_model)):
+        for i in range(budget.get(kind, 0)):
             r = random.Random(rng.getrandbits(64))
             spec, states, params = fn(r)
             c = {"kind": kind, "spec": spec, "states": states, "params": params,
@@ -135,10 +184,12 @@ def make_cases(rng, tier, budget):
             cases.append(_obs_setup(r, states, params, c))
     for i in range(budget["one_state"]):
         r = random.Random(rng.getrandbits(64))
+        # x' = -a x^2 + b   or   x' = -a x^2 + a b  (the second has d2f/da db != 0)
+        src = E.var("b") if i % 2 == 0 else E.mul(E.var("a"), E.var("b"))
         spec = {"state": {"list": ["X"]}, "param": {"list": ["a", "b"]}, "derived": [],
                 "ctor": {"event": [], "transition": [], "birth_death": [],
                          "ode": [{"type": "ODE", "origin": "X", "dest": None, "mag": E.num(1),
-                                  "eq": E.add(E.neg(E.mul(E.mul(E.var("a"), E.var("X")), E.var("X"))), E.var("b"))}]}, "then": []}
+                                  "eq": E.add(E.neg(E.mul(E.mul(E.var("a"), E.var("X")), E.var("X"))), src)}]}, "then": []}
         c = {"kind": "one_state", "spec": spec, "states": ["X"], "params": ["a", "b"], "theta": [r.randint(20, 60) / 100.0, r.randint(20, 60) / 100.0],
              "x0": [r.randint(5, 20) / 10.0], "T": 2.0}
         cases.append(_obs_setup(r, ["X"], ["a", "b"], c))
@@ -150,22 +201,18 @@ def search_cases(rng, tier, budget):
 
 
 # ---------------------------------------------------------------------------------------------------------
-def coded_ff_rhs(model, nS, nP, z, t):
-    """the coded first + second order sensitivity system with explicit contractions (no kron / reshape tricks)"""
-    x = z[:nS]
+def _unpack(nS, nP, z):
     S = np.zeros((nS, nP)); X = np.zeros((nS, nP, nP))
     for i in range(nS):
         for a in range(nP):
             S[i, a] = z[nS + a * nS + i]
             for b in range(nP):
                 X[i, a, b] = z[nS + nS * nP + (i * nP + a) * nP + b]
-    f = np.asarray(model.ode(x, t), float).ravel()
-    J = np.asarray(model.jacobian(x, t), float).reshape(nS, nS)
-    G = np.asarray(model.grad(x, t), float).reshape(nS, nP)
-    D = np.asarray(model.diff_jacobian(x, t), float).reshape(nS, nS, nS)      # D[i][k][j] = d2 f_i / dx_k dx_j
-    dS = J @ S + G
-    dX = np.einsum("il,lab->iab", J, X) + np.einsum("ikj,ka,jb->iab", D, S, S)
-    out = np.zeros(len(z))
+    return S, X
+
+
+def _pack(nS, nP, n, f, dS, dX):
+    out = np.zeros(n)
     out[:nS] = f
     for i in range(nS):
         for a in range(nP):
@@ -173,6 +220,83 @@ def coded_ff_rhs(model, nS, nP, z, t):
             for b in range(nP):
                 out[nS + nS * nP + (i * nP + a) * nP + b] = dX[i, a, b]
     return out
+
+
+def _second_order(J, G, D, M, P, S, X):
+    """J X + D S S + M S (both orders) + P  with D[i][k][j] = d2f_i/dx_k dx_j, M[i][k][a] = d2f_i/dx_k dtheta_a,
+    P[i][a][b] = d2f_i/dtheta_a dtheta_b"""
+    dX = np.einsum("il,lab->iab", J, X) + np.einsum("ikj,ka,jb->iab", D, S, S)
+    if M is not None:
+        dX = dX + np.einsum("ikb,ka->iab", M, S) + np.einsum("ika,kb->iab", M, S)
+    if P is not None:
+        dX = dX + P
+    return dX
+
+
+def coded_ff_rhs(model, nS, nP, z, t, as_found=False):
+    """the coded first + second order sensitivity system with explicit contractions (no kron / reshape tricks), from the
+    model's own evaluators; as_found=True: the system before the repair of C20-hessian-mixed-terms (no grad_jacobian /
+    grad_grad terms; calls neither)"""
+    x = z[:nS]
+    S, X = _unpack(nS, nP, z)
+    f = np.asarray(model.ode(x, t), float).ravel()
+    J = np.asarray(model.jacobian(x, t), float).reshape(nS, nS)
+    G = np.asarray(model.grad(x, t), float).reshape(nS, nP)
+    D = np.asarray(model.diff_jacobian(x, t), float).reshape(nS, nS, nS)      # D[i][k][j] = d2 f_i / dx_k dx_j
+    M = P = None
+    if not as_found:
+        GJ = np.asarray(model.grad_jacobian(x, t), float).reshape(nP, nS, nS)  # GJ[a][i][k] = d/dx_k df_i/dtheta_a
+        M = GJ.transpose(1, 2, 0)
+        P = np.asarray(model.grad_grad(x, t), float).reshape(nS, nP, nP)       # row i*nP+a, column b
+    return _pack(nS, nP, len(z), f, J @ S + G, _second_order(J, G, D, M, P, S, X))
+
+
+class SymOracle:
+    """the second-order sensitivity system derived HERE from `get_ode_eqn()` by sympy differentiation (independent of
+    get_jacobian_eqn / get_grad_eqn / get_diff_jacobian_eqn / get_grad_jacobian_eqn / get_grad_grad_eqn and of every
+    compiled evaluator); parameter values are an explicit argument"""
+
+    def __init__(self, model):
+        import sympy
+        ode = list(model.get_ode_eqn())
+        xs = list(model._iterStateList()); ps = list(model._iterParamList())
+        self.nS, self.nP = len(xs), len(ps)
+        tsym = getattr(model, "_t", sympy.Symbol("t"))
+        args = xs + [tsym] + ps
+        d = sympy.diff
+        mk = lambda rows: sympy.lambdify(args, sympy.Matrix(rows), modules="numpy")
+        self.f = mk([[e] for e in ode])
+        self.J = mk([[d(e, x) for x in xs] for e in ode])
+        self.G = mk([[d(e, p) for p in ps] for e in ode])
+        self.D = mk([[d(e, xk, xj) for xj in xs] for e in ode for xk in xs])            # row i*nS+k, col j
+        self.M = mk([[d(e, xk, p) for p in ps] for e in ode for xk in xs])              # row i*nS+k, col a
+        self.P = mk([[d(e, pa, pb) for pb in ps] for e in ode for pa in ps])            # row i*nP+a, col b
+        self.sym = {"M": [[d(e, xk, p) for p in ps] for e in ode for xk in xs], "P": [[d(e, pa, pb) for pb in ps] for e in ode for pa in ps]}
+
+    def term_tags(self, tidx):
+        """which parameter terms of the second-order equation are not identically zero for the target parameters"""
+        import sympy
+        nS, nP = self.nS, self.nP
+        out = set()
+        nz = lambda e: sympy.cancel(e) != 0
+        if any(nz(self.sym["M"][r][a]) for r in range(nS * nS) for a in tidx):
+            out.add("term:state-param")
+        for i in range(nS):
+            for a in tidx:
+                for b in tidx:
+                    if nz(self.sym["P"][i * nP + a][b]):
+                        out.add("term:param-squared" if a == b else "term:param-param")
+        return out
+
+    def rhs(self, theta, z, t):
+        nS, nP = self.nS, self.nP
+        x = z[:nS]
+        args = list(x) + [t] + list(theta)
+        A = lambda fn, shape: np.asarray(fn(*args), float).reshape(shape)
+        S, X = _unpack(nS, nP, z)
+        J, G = A(self.J, (nS, nS)), A(self.G, (nS, nP))
+        dX = _second_order(J, G, A(self.D, (nS, nS, nS)), A(self.M, (nS, nS, nP)), A(self.P, (nS, nP, nP)), S, X)
+        return _pack(nS, nP, len(z), A(self.f, (nS,)), J @ S + G, dX)
 
 
 def build_model(case):
@@ -183,24 +307,6 @@ def build_model(case):
         m._SC = ode_utils.compileCode(backend="lambda")
         return m
     return pymodel.build(case["spec"], backend="lambda")
-
-
-def has_mixed_terms(model, params, tgt_idx):
-    """does some d2f/dx dtheta or d2f/dtheta2 (free parameters) not vanish identically"""
-    import sympy
-    nS = model.num_state
-    GJ = model.get_grad_jacobian_eqn()
-    G = model.get_grad_eqn()
-    plist = [p for p in model._iterParamList()] if hasattr(model, "_iterParamList") else list(model.param_list)
-    for k in tgt_idx:
-        for i in range(nS):
-            for j in range(nS):
-                if sympy.cancel(GJ[k * nS + i, j]) != 0:
-                    return True
-            for l in tgt_idx:
-                if sympy.cancel(sympy.diff(G[i, k], plist[l])) != 0:
-                    return True
-    return False
 
 
 def _sig(base, nS, case=None, p_=None):
@@ -337,25 +443,60 @@ def run_case(case):
                 mism.append({"what": "sens_to_jtj vs Lean sensToJtj", "detail": worst(Jp, lj.reshape(nT, nT))})
 
     # ---- forward-forward right-hand side, pointwise
+    try:
+        sym = SymOracle(model)
+        terms = sym.term_tags(tidx)
+    except Exception as exc:
+        sym, terms = None, set()
+        mism.append({"what": "harness SymOracle", "detail": "%s: %s" % (type(exc).__name__, str(exc)[:200])})
+    tags += sorted(terms) if terms else ["term:none"]
+    missing = [nm for nm in ("grad_jacobian", "grad_grad") if not hasattr(model, nm)]
+    if missing:
+        # the modelled source has these evaluators: their absence is a broken correspondence, not a crash of the harness
+        mism.append({"what": "evaluator missing: " + ",".join(missing),
+                     "detail": "the Lean model (Sens.evalForwardForward) mirrors eval_forwardforward WITH the grad_jacobian / grad_grad terms"})
     if True:
         rz = random.Random(case["noise_seed"])
         zq = [Fraction(rz.randint(1, 30), 10) for _ in range(nS)] + [Fraction(rz.randint(-20, 20), 8) for _ in range(nS * nP + nS * nP * nP)]
         z = np.array([float(q) for q in zq])
         xq = z[:nS]
         model.parameters = list(theta)
+        Fq = lambda arr, r_, c_: [[Fraction(float(v)) for v in row] for row in np.asarray(arr, float).reshape(r_, c_)]
         fq = [Fraction(float(v)) for v in np.asarray(model.ode(xq, 0.0), float).ravel()]
-        Jq = [[Fraction(float(v)) for v in row] for row in np.asarray(model.jacobian(xq, 0.0), float).reshape(nS, nS)]
-        Gq = [[Fraction(float(v)) for v in row] for row in np.asarray(model.grad(xq, 0.0), float).reshape(nS, nP)]
-        Dq = [[Fraction(float(v)) for v in row] for row in np.asarray(model.diff_jacobian(xq, 0.0), float).reshape(nS * nS, nS)]
+        Jq = Fq(model.jacobian(xq, 0.0), nS, nS)
+        Gq = Fq(model.grad(xq, 0.0), nS, nP)
+        Dq = Fq(model.diff_jacobian(xq, 0.0), nS * nS, nS)
         try:
             real = np.asarray(model.ode_and_forwardforward(z, 0.0), float).ravel()
-            lo = to_float(layout("odeAndForwardForward", nS=nS, nP=nP, f=fvec(fq), J=fmat(Jq), G=fmat(Gq), DJ=fmat(Dq), z=fvec(zq)))
-            sc = 1.0 + float(np.max(np.abs(lo)))
-            if not close_arr(real, lo, 1e-10, 1e-10 * sc):
-                mism.append({"what": "ode_and_forwardforward vs Lean odeAndForwardForward", "detail": worst(real, lo)})
-            mine = coded_ff_rhs(model, nS, nP, z, 0.0)
-            if not close_arr(mine, lo, 1e-10, 1e-10 * sc):
-                mism.append({"what": "harness coded_ff_rhs vs Lean odeAndForwardForward", "detail": worst(mine, lo)})
+            if not missing:
+                GJq = Fq(model.grad_jacobian(xq, 0.0), nP * nS, nS)
+                GGq = Fq(model.grad_grad(xq, 0.0), nS * nP, nP)
+                lo = to_float(layout("odeAndForwardForward", nS=nS, nP=nP, f=fvec(fq), J=fmat(Jq), G=fmat(Gq), DJ=fmat(Dq),
+                                     GJ=fmat(GJq), GG=fmat(GGq), z=fvec(zq)))
+                sc = 1.0 + float(np.max(np.abs(lo)))
+                if not close_arr(real, lo, 1e-10, 1e-10 * sc):
+                    mism.append({"what": "ode_and_forwardforward vs Lean odeAndForwardForward", "detail": worst(real, lo)})
+                mine = coded_ff_rhs(model, nS, nP, z, 0.0)
+                if not close_arr(mine, lo, 1e-10, 1e-10 * sc):
+                    mism.append({"what": "harness coded_ff_rhs vs Lean odeAndForwardForward", "detail": worst(mine, lo)})
+            # the as-found variant of the harness and of the Lean model agree (it is used for classification below)
+            lo_af = to_float(layout("odeAndForwardForwardAsFound", nS=nS, nP=nP, f=fvec(fq), J=fmat(Jq), G=fmat(Gq), DJ=fmat(Dq), z=fvec(zq)))
+            mine_af = coded_ff_rhs(model, nS, nP, z, 0.0, as_found=True)
+            if not close_arr(mine_af, lo_af, 1e-10, 1e-10 * (1.0 + float(np.max(np.abs(lo_af))))):
+                mism.append({"what": "harness coded_ff_rhs(as_found) vs Lean odeAndForwardForwardAsFound", "detail": worst(mine_af, lo_af)})
+            # independent oracle: derivatives taken here from get_ode_eqn()
+            if sym is not None:
+                orc = sym.rhs(theta, z, 0.0)
+                sco = 1.0 + float(np.max(np.abs(orc)))
+                if not close_arr(real, orc, 1e-9, 1e-9 * sco):
+                    if close_arr(real, mine_af, 1e-9, 1e-9 * sco):
+                        what = "ode_and_forwardforward omits the grad_jacobian / grad_grad terms (equals the as-found system)"
+                    else:
+                        what = "ode_and_forwardforward is not the second-order sensitivity equation (derivatives of get_ode_eqn() taken independently)"
+                    viol.append({"what": what, "signature": SIG_RHS + (":nS=1" if nS == 1 else ""),
+                                 "detail": worst(real, orc) + " terms=%s" % sorted(terms)})
+                else:
+                    tags.append("ff-rhs:agrees-with-independent-derivation")
         except Exception as exc:
             viol.append({"what": "ode_and_forwardforward raised %s: %s" % (type(exc).__name__, str(exc)[:160]), "signature": "forwardforward:raises", "detail": ""})
 
@@ -383,60 +524,59 @@ def run_case(case):
                       stateIdx=[int(k) for k in np.atleast_1d(L._stateIndex)], paramIdx=[int(k) for k in L._getTargetParamIndex()],
                       dl=fmat([[Fraction(float(v)) for v in row] for row in dl2]), w=fmat([[Fraction(float(v)) for v in row] for row in W]),
                       JTJ=fmat([[Fraction(float(v)) for v in row] for row in np.asarray(o2["JTJ"], float).reshape(nT, nT)]))
-            matched = None
-            for variant in ("coded", "repaired"):
-                lv = to_float(layout("hessian", variant=variant, **a2)).reshape(nT, nT)
-                if close_arr(Hf, lv, 1e-9, 1e-9 * scaleH + 1e-12):
-                    matched = variant
-                    break
-            if matched is None:
-                mism.append({"what": "hessian assembly vs Lean hessianCoded/hessianRepaired", "detail": worst(Hf, lv)})
+            lv = to_float(layout("hessian", variant="source", **a2)).reshape(nT, nT)
+            if not close_arr(Hf, lv, 1e-9, 1e-9 * scaleH + 1e-12):
+                lva = to_float(layout("hessian", variant="as_found", **a2)).reshape(nT, nT)
+                mism.append({"what": "hessian assembly vs Lean Sens.hessian" + (" (equals Sens.hessianAsFound)" if close_arr(Hf, lva, 1e-9, 1e-9 * scaleH + 1e-12) else ""),
+                             "detail": worst(Hf, lv)})
             else:
-                tags.append("hessian-assembly:model-variant=" + matched)
+                tags.append("hessian-assembly:agrees")
         except Exception as exc:
             mism.append({"what": "hessian(full_output=True) raised", "detail": "%s: %s" % (type(exc).__name__, str(exc)[:200])})
         tolH = 1e-3 * scaleH + 1e-4 * (1.0 + cost0)
         second_true = H_true - 2 * JTJ_true
         nontriv_h = bool(np.max(np.abs(second_true)) > 1e-2 * scaleH and scaleH > 1e-2 * (1.0 + cost0))
         if not close_arr(Hp, H_true, 0, tolH):
-            # what does the Lean model of the code predict?  integrate the coded system independently
+            # DIAGNOSTICS ONLY (the verdict is already: violation).  Which known defective variant predicts this value?
+            # integrate the as-found system (no grad_jacobian / grad_grad terms) and the independent true system
             model.parameters = list(theta)
             z0 = np.append(x0, np.zeros(nS * nP + nS * nP * nP))
-            sol = None
-            if True:
+            def _solve(rhs):
                 try:
-                    sol = ref_solve(lambda t, z: coded_ff_rhs(model, nS, nP, z, t), z0, 0.0, ts, rtol=1e-11, atol=1e-12)
+                    return ref_solve(rhs, z0, 0.0, ts, rtol=1e-11, atol=1e-12)
                 except Exception:
-                    sol = None
-            classified = False
-            if sol is not None:
-                dl = -2.0 * (y - base[:, oidx]) * W
+                    return None
+            sol_af = _solve(lambda t, z: coded_ff_rhs(model, nS, nP, z, t, as_found=True))
+            sol_tr = _solve(lambda t, z: sym.rhs(theta, z, t)) if sym is not None else None
+            dl = -2.0 * (y - base[:, oidx]) * W
+            def _assemble(sol, variant):
                 ffrows = [[Fraction(float(v)) for v in row[nS + nS * nP:]] for row in sol]
                 args = dict(nS=nS, nP=nP, ff=[fvec(r_) for r_ in ffrows], stateIdx=oidx, paramIdx=tidx,
                             dl=fmat([[Fraction(float(v)) for v in row] for row in dl]),
                             w=fmat([[Fraction(float(v)) for v in row] for row in W]),
                             JTJ=fmat([[Fraction(float(v)) for v in row] for row in JTJ_true]))
-                H_coded = to_float(layout("hessian", variant="coded", **args)).reshape(nT, nT)
-                H_rep = to_float(layout("hessian", variant="repaired", **args)).reshape(nT, nT)
-                mixed = has_mixed_terms(model, params, tidx)
-                tags.append("mixed-terms" if mixed else "no-mixed-terms")
-                dsort = 2 * (JTJ_sorted - JTJ_true)
-                if mixed and close_arr(Hp, H_rep, 0, tolH) and not close_arr(H_rep, H_true, 0, tolH):
-                    viol.append({"what": "hessian omits the mixed state-parameter second derivatives (value = Lean model of the coded forward-forward system)",
-                                 "signature": SIG_MIXED, "detail": worst(Hp, H_true) + " ; vs model prediction: " + worst(Hp, H_rep)})
-                    classified = True
-                elif close_arr(Hp, H_coded, 0, tolH):
-                    viol.append({"what": "hessian has the wrong sign (and weight power) on its second-order term: value = 2*JTJ - sum diff_loss*X as coded",
-                                 "signature": "hessian:second-order-term-sign", "detail": worst(Hp, H_true) + " ; vs as-coded prediction: " + worst(Hp, H_coded)})
-                    classified = True
-                elif not asc and (close_arr(Hp, H_rep + dsort, 0, tolH) or close_arr(Hp, H_coded + dsort, 0, tolH) or close_arr(Hp, H_true + dsort, 0, tolH)):
-                    viol.append({"what": "hessian adds 2*JTJ of the SORTED selection to H of the supplied order", "signature": "hessian:sens-index-order",
-                                 "detail": worst(Hp, H_true) + " obs=%s target=%s" % (obs, tgt)})
-                    classified = True
+                return to_float(layout("hessian", variant=variant, **args)).reshape(nT, nT)
+            classified = False
+            dsort = 2 * (JTJ_sorted - JTJ_true)
+            H_af = _assemble(sol_af, "source") if sol_af is not None else None
+            H_sign = _assemble(sol_tr, "as_found") if sol_tr is not None else None
+            if terms and H_af is not None and close_arr(Hp, H_af, 0, tolH) and not close_arr(H_af, H_true, 0, tolH):
+                viol.append({"what": "hessian omits the second derivatives of the ODE that involve a parameter (value = the as-found forward-forward "
+                                     "system without the grad_jacobian / grad_grad terms, integrated independently)",
+                             "signature": SIG_MIXED, "detail": worst(Hp, H_true) + " ; vs as-found prediction: " + worst(Hp, H_af) + " terms=%s" % sorted(terms)})
+                classified = True
+            elif H_sign is not None and close_arr(Hp, H_sign, 0, tolH):
+                viol.append({"what": "hessian has the wrong sign (and weight power) on its second-order term: value = 2*JTJ - sum diff_loss*X",
+                             "signature": "hessian:second-order-term-sign", "detail": worst(Hp, H_true) + " ; vs as-found-sign prediction: " + worst(Hp, H_sign)})
+                classified = True
+            elif not asc and any(Hv is not None and close_arr(Hp, Hv + dsort, 0, tolH) for Hv in (H_af, H_sign, H_true)):
+                viol.append({"what": "hessian adds 2*JTJ of the SORTED selection to H of the supplied order", "signature": "hessian:sens-index-order",
+                             "detail": worst(Hp, H_true) + " obs=%s target=%s" % (obs, tgt)})
+                classified = True
             if not classified:
-                viol.append({"what": "hessian != second derivatives of the square-loss cost (central differences of the reference gradient), and not the "
-                                     "value the model of the code predicts", "signature": _sig("hessian:other", nS),
-                             "detail": worst(Hp, H_true) + " obs=%s target=%s weights=%s" % (obs, tgt, case.get("wkind"))})
+                viol.append({"what": "hessian != second derivatives of the square-loss cost (central differences of the reference gradient)",
+                             "signature": _sig("hessian:other", nS),
+                             "detail": worst(Hp, H_true) + " obs=%s target=%s weights=%s terms=%s" % (obs, tgt, case.get("wkind"), sorted(terms))})
         else:
             tags.append("hessian:agrees" + (":second-order-part-significant" if nontriv_h else ""))
     rank = int(np.linalg.matrix_rank(JTJ_true)) if np.all(np.isfinite(JTJ_true)) else 0
